@@ -10,6 +10,7 @@ RULE = ("requests: word generators on unit states (each of the 256 single-bit Xo
         "interleaved with draws and fills; every output, every child draw and the final state are compared with the model, whose jump is proved equal to 2^128 / 2^40 single steps. "
         "chacha: jump/split-rich histories on ChaCha8/12/20 from stream ids at the 32- and 64-bit carry boundaries (low word 0xffffffff, 2^64-1, ...), every output and the serde-visible "
         "key/counter/stream/index compared with the model (jump proved = stream id + 1 mod 2^64); independent oracle: final stream id = initial + #jumps + #splits (mod 2^64), key unchanged. "
+        "extra: split/clone twins - what the split-off generator draws first equals what a never-split twin with the same history draws (word draws and byte fills, every ChaCha buffer offset). "
         "non-trivial = history contains a jump or split; distinct = distinct request line")
 TRUSTED = ["kernel evaluation (decide +kernel) of the GF(2) certificates: x^(2^128) mod P = JUMP, P(T)=0 on the 256 unit states, x^(2^256-1)=1 and one inverse certificate per prime factor; Pratt certificates via Mathlib lucas_primality"]
 ASSUMPTIONS = ["that after a ChaCha jump nothing of the old stream is served (buffer invalidated) is C03's keystream-attribution oracle; here the stream id arithmetic and the outputs are checked against the model"]
@@ -96,3 +97,41 @@ def corpus(build):
 
 def classify(req, model):
     return "chacha" if req.startswith("chacha ") else req.split()[1]
+
+
+def extra(binary, build, tier, rng):
+    """`split returns the generator as it was`: what the split-off generator draws first must be exactly what a twin of the original (same
+    construction, same history, never split) draws at that point - for word draws and byte fills, at every ChaCha buffer offset."""
+    n = 160 if tier == "quick" else 4000
+    cases = []
+    for N in (8, 20):
+        for off in (0, 1, 3, 4, 8, 248, 249, 250, 251, 252, 253, 254, 255, 256, 257, 509, 510, 511, 512):
+            for child, direct in (("splitf:64", "fill:64"), ("split32", "u32"), ("split", "u64"), ("clonef:5", "fill:5")):
+                head = "chacha n=%d key=9,8,7,6,5,4,3,2 ctr=3 str=%d ops=" % (N, (1 << 32) - 1)
+                cases.append((head + "fill:%d,%s" % (off, child), head + "fill:%d,%s" % (off, direct), 1))
+    for _ in range(n):
+        if rng.chance(1, 2):
+            kk, c, st, N = G.key(rng), G.counter(rng), G.stream(rng), G.rounds(rng)
+            head = "chacha n=%d key=%s ctr=%d str=%d ops=" % (N, ",".join(map(str, kk)), c, st)
+            pre = [rng.choice(["u32", "u64", "fill:%d" % G.fill_len(rng), "jump", "f64"]) for _ in range(rng.below(5))]
+        else:
+            head = "word gen=%s seed=%d via=from_seed ops=" % (rng.choice(["xoshiro", "splitmix", "wyrand"]), rng.edge64())
+            pre = [rng.choice(["u32", "u64", "fill:%d" % rng.below(20), "jump", "f64"]) for _ in range(rng.below(5))]
+        if head.startswith("chacha"):
+            child, direct = rng.choice([("splitf:%d" % k, "fill:%d" % k) for k in (1, 3, 8, 64, 300)] + [("split32", "u32"), ("split", "u64")])
+        else:
+            child, direct = ("split", "u64")
+        cases.append((head + ",".join(pre + [child]), head + ",".join(pre + [direct]), len(pre)))
+    rc, res, err = C.run_lines(binary, ["run"], [q for c in cases for q in c[:2]])
+    for k, (qa, qb, npre) in enumerate(cases):
+        ta, tb = res[2 * k].split(), res[2 * k + 1].split()
+        if len(ta) <= npre or len(tb) <= npre:
+            continue
+        a, b = ta[npre], tb[npre]
+        # child token: s:<u64|u32> / sb:<hex> / cb:<hex>; direct token: <number> / b:<hex>
+        av = a.split(":", 1)[1] if ":" in a else a
+        bv = b.split(":", 1)[1] if ":" in b else b
+        if av != bv:
+            yield {"kind": "oracle", "build": build, "request": qa, "requests": [qa, qb], "impl": res[2 * k][:300], "model": res[2 * k + 1][:300],
+                   "oracle": "the generator returned by split (clone) is not the generator as it was: its first draw is %s, a twin of the original with the same history draws %s" % (av[:40], bv[:40])}
+    yield {"kind": "count", "what": "split-vs-twin-runs", "n": len(cases), "distinct": len(cases)}
